@@ -25,6 +25,10 @@ UNIT = 1024  # program times are integers in 1/1024 s: exact in binary floating 
 
 SCOPE_MSG_PREFIX = "Cancelled by cancel scope "
 
+
+class _ShieldedBodyError(Exception):
+    """application error raised by a shielded body and handled by the program"""
+
 MOVE_ON_KINDS = ("move_on_after", "move_on_at", "open")
 TIMEOUT_KINDS = ("timeout", "timeout_at")
 
@@ -94,6 +98,8 @@ class RealRun:
         self.ext_turns = ext_turns  # deliver the external cancel this many loop turns after its timer fired
         self.nt_nested_cancel = False
         self.nt_shield_pending = False
+        self.nt_shield_failed = False
+        self.nt_wait_failed = False
         self.cross_task_cancel = False
         self.sids = scope_ids(program)
         self.marks: list[tuple[int, float, str]] = []  # (mark id, virtual time, task name)
@@ -145,6 +151,17 @@ class RealRun:
         try:
             if op == "cp":
                 await self.backend.coro_yield()
+            elif len(node) > 2 and node[2] == "fail" and node[1] > 0:
+                # same timer structure as asyncio.sleep(), but the awaited future ends with an application error that
+                # the program handles on the spot (for the reference semantics this is a plain sleep)
+                fut = self.loop.create_future()
+                handle = self.loop.call_later(secs(node[1]), lambda: fut.done() or fut.set_exception(_ShieldedBodyError()))
+                try:
+                    await fut
+                except _ShieldedBodyError:
+                    self.nt_wait_failed = True
+                finally:
+                    handle.cancel()
             else:
                 await self.backend.sleep(secs(node[1]))
         except asyncio.CancelledError:
@@ -204,8 +221,20 @@ class RealRun:
                 rec.obj.reschedule(when)
         elif op == "shield":
             tc.shield += 1
+            fails = len(node) > 2 and node[2] == "fail"
+
+            async def shielded_body() -> None:
+                await self._body(node[1], env, tc)
+                if fails:
+                    # the shielded coroutine ends with an application error which the program handles: whatever was
+                    # postponed by the shield must still be delivered at the next checkpoint
+                    raise _ShieldedBodyError
+
             try:
-                await self.backend.ignore_cancellation(self._body(node[1], env, tc))
+                try:
+                    await self.backend.ignore_cancellation(shielded_body())
+                except _ShieldedBodyError:
+                    self.nt_shield_failed = True
             except asyncio.CancelledError:
                 self.problem("shield", f"task {tc.name}: ignore_cancellation(...) raised CancelledError", node="shield")
                 raise
@@ -721,6 +750,10 @@ def _run(case: dict, exact_layer: bool) -> Outcome:
         classes.append("timeout-raised")
     if real.nt_nested_cancel:
         classes.append("nested-cancel")
+    if real.nt_shield_failed:
+        classes.append("shielded-body-raised")
+    if real.nt_wait_failed:
+        classes.append("awaited-future-failed")
     if real.nt_shield_pending:
         classes.append("shield-with-pending-cancel")
     if scope_model.count_ops(program, "resched"):
@@ -775,6 +808,14 @@ class _Gen:
         self.children_left = MAX_CHILDREN
         self.timer_no = 0
 
+    def fail_flag(self) -> list:
+        """1 in 4 timed waits is a wait on a future that ends with an error handled by the program"""
+        return ["fail"] if self.draw(st.integers(0, 3)) == 0 else []
+
+    def shield_flag(self) -> list:
+        """1 in 3 shielded bodies ends by raising an error that the program catches around ignore_cancellation()"""
+        return ["fail"] if self.draw(st.integers(0, 2)) == 0 else []
+
     def delay(self, span: int) -> int | None:
         """deadline offset of a scope / reschedule; `span` = nominal duration (units) of what it covers, so that most
         deadlines fall inside the covered code"""
@@ -809,7 +850,7 @@ class _Gen:
         self.budget -= 1
         if self.draw(st.integers(0, 2)) == 0:
             return ["cp"]
-        return ["sleep", self.sleep()]
+        return ["sleep", self.sleep()] + self.fail_flag()
 
     def body(self, depth: int, nenv: int, max_items: int = 4, child: bool = False) -> list:
         draw = self.draw
@@ -845,7 +886,7 @@ class _Gen:
         op = draw(st.sampled_from(choices))
         self.budget -= 1
         if op == "sleep":
-            return [["sleep", self.sleep()]]
+            return [["sleep", self.sleep()] + self.fail_flag()]
         if op == "cp":
             return [["cp"]]
         if op == "cancel":
@@ -862,10 +903,10 @@ class _Gen:
             body = self.body(depth + 1, nenv + 1, child=child)
             return [["scope", kind, self.delay(nominal_duration(body)), body]]
         if op == "shield":
-            return [["shield", self.body(depth + 1, nenv, child=child)]]
+            return [["shield", self.body(depth + 1, nenv, child=child)] + self.shield_flag()]
         if op == "shielded-sleep":
             self.budget -= 1
-            return [["shield", [["sleep", draw(st.integers(1, 6)) * UNIT]]]]
+            return [["shield", [["sleep", draw(st.integers(1, 6)) * UNIT] + self.fail_flag()]] + self.shield_flag()]
         nchildren = draw(st.integers(1, self.children_left))
         self.children_left -= nchildren
         children = [self.body(depth + 1, nenv, max_items=3, child=True) for _ in range(nchildren)]
@@ -929,7 +970,7 @@ def add_marks(program: list) -> list:
             if op == "scope":
                 node = ["scope", node[1], node[2], walk(node[3])]
             elif op == "shield":
-                node = ["shield", walk(node[1])]
+                node = ["shield", walk(node[1])] + list(node[2:])
             elif op == "group":
                 node = ["group", [walk(c) for c in node[1]], walk(node[2])]
             out.append(node)
